@@ -47,7 +47,12 @@ def py_pools():
                P.Implies(P.MetaVar(2), P.MetaVar(10)), P._and(P.MetaVar(10), P.MetaVar(2)),
                P.Instantiate(P._or(P.MetaVar(10), P.MetaVar(2)), frozendict({2: P.Symbol('s0')})),
                P.Instantiate(P.Exists(0, P.Implies(P.MetaVar(1), P.MetaVar(0))), frozendict({0: P.MetaVar(1)})),
-               P.Instantiate(P.ESubst(P.MetaVar(0), P.EVar(0), P.MetaVar(1)), frozendict({1: P.EVar(1)}))]
+               P.Instantiate(P.ESubst(P.MetaVar(0), P.EVar(0), P.MetaVar(1)), frozendict({1: P.EVar(1)})),
+               # stacks of pending substitutions whose INNER plug mentions a metavariable other than the one at the bottom
+               P.ESubst(P.ESubst(P.MetaVar(0), P.EVar(0), P.App(P.MetaVar(1), P.EVar(1))), P.EVar(1), P.Symbol('s0')),
+               P.ESubst(P.SSubst(P.MetaVar(0), P.SVar(0), P.MetaVar(1)), P.EVar(0), P.Symbol('s0')),
+               P.SSubst(P.ESubst(P.MetaVar(0), P.EVar(0), P.MetaVar(1)), P.SVar(0), P.MetaVar(2)),
+               P.SSubst(P.SSubst(P.MetaVar(0), P.SVar(0), P.App(P.MetaVar(1), P.SVar(1))), P.SVar(1), P.Symbol('s0'))]
     return plugs, partial
 
 
